@@ -49,7 +49,8 @@ func (t *WebsocketTransport) Connect() (string, error) {
 	})
 
 	if err != nil {
-		return "", NewConnError(err, true)
+		// Not being able to reach the server (connection refused, reset, timeout) is not a permanent condition
+		return "", NewConnError(err, false)
 	}
 	if response.Header.Get("Sec-WebSocket-Protocol") != "xmpp" {
 		t.cleanup(websocket.StatusBadGateway)
@@ -69,7 +70,8 @@ func (t *WebsocketTransport) Connect() (string, error) {
 func (t WebsocketTransport) StartStream() (string, error) {
 	if _, err := fmt.Fprintf(t, `<open xmlns="urn:ietf:params:xml:ns:xmpp-framing" to="%s" version="1.0" />`, t.Config.Domain); err != nil {
 		t.cleanup(websocket.StatusBadGateway)
-		return "", NewConnError(err, true)
+		// The connection broke before the stream could be opened: as transient as failing to read the reply
+		return "", NewConnError(err, false)
 	}
 
 	sessionID, err := stanza.InitStream(t.GetDecoder())
